@@ -1,1 +1,64 @@
-From Clvm Require Import Model.Classic.
+(* C15 — classic serialization round-trips and is canonical.
+   Only statements here; every proof is `exact <lemma>` from Proofs/Classic*.v.
+
+   [wf_sexp t] says every list element of every atom is a byte (< 256): the model's byte strings
+   are lists of N. [ser t = Some e] says the tree is serializable at all (every atom < 2^34
+   bytes, C15_ser_defined).
+
+   Full statement = C15_roundtrip /\ C15_canonical /\ C15_trusted_length /\ C15_untrusted_length
+   /\ C15_cache_length /\ C15_converse. Proved: the first three, the cache length, and
+   node_to_bytes = ser. NOT proved (so the property is claimed below proof level):
+     C15_converse : parse bs = Ok (t, rest) -> is_canonical_serialization consumed = BTrue ->
+                    ser t = Some consumed
+     C15_untrusted_length (serialized_length_from_bytes also steps over back-references and is
+                    not modelled in Model/Classic.v)
+   Both are decided on the implementation by the check's search ("agree" and "tree" families). *)
+From Clvm Require Import Model.Classic Proofs.ClassicProofs Proofs.ClassicWriter.
+Open Scope N_scope.
+
+Theorem C15_ser_defined : forall t, atoms_small t = true <-> ser t <> None.
+Proof. exact ser_defined. Qed.
+
+(* node_to_bytes (limit 2 000 000) produces exactly [ser t] *)
+Theorem C15_node_to_bytes : forall t e, ser t = Some e -> blen e <= 2000000 -> node_to_bytes t = Ok e.
+Proof. exact node_to_bytes_ser. Qed.
+
+(* decoding the serialization (followed by anything) gives the identical tree and stops exactly
+   at its end; stated for the stack decoder node_from_stream and for the recursive grammar *)
+Theorem C15_roundtrip : forall t e rest, wf_sexp t = true -> ser t = Some e ->
+  node_from_stream (e ++ rest) = Ok (t, rest).
+Proof. exact node_from_stream_ser. Qed.
+
+Theorem C15_roundtrip_grammar : forall t e rest, wf_sexp t = true -> ser t = Some e ->
+  parse (e ++ rest) = Ok (t, rest).
+Proof. exact parse_ser. Qed.
+
+Theorem C15_canonical : forall t e, wf_sexp t = true -> ser t = Some e ->
+  is_canonical_serialization e = BTrue.
+Proof. exact is_canonical_ser. Qed.
+
+Theorem C15_trusted_length : forall t e rest, wf_sexp t = true -> ser t = Some e ->
+  serialized_length_trusted (e ++ rest) = Ok (blen e).
+Proof. exact trusted_length_ser. Qed.
+
+(* object-cache length: u32 arithmetic in serialized_length_atom, saturating u64 adds; equal to
+   the byte count whenever that is below 2^32 - 5 *)
+Theorem C15_cache_length : forall t e, ser t = Some e -> blen e < 4294967291 ->
+  cache_serialized_length t = Ok (blen e).
+Proof. exact cache_serialized_length_spec. Qed.
+
+(* non-vacuity: atoms on both sides of the 1-byte/2-byte prefix boundary *)
+Example C15_witness :
+  let t := Cons (Atom (repeat 7 63)) (Cons (Atom (repeat 0x80 64)) (Atom [])) in
+  wf_sexp t = true /\ (exists e, ser t = Some e /\ blen e = 133 /\ is_canonical_serialization e = BTrue
+     /\ node_from_stream (e ++ [9]) = Ok (t, [9])).
+Proof. split; [vm_compute; reflexivity|]. eexists. split; [vm_compute; reflexivity|]. vm_compute. repeat split. Qed.
+
+Print Assumptions C15_ser_defined.
+Print Assumptions C15_node_to_bytes.
+Print Assumptions C15_roundtrip.
+Print Assumptions C15_roundtrip_grammar.
+Print Assumptions C15_canonical.
+Print Assumptions C15_trusted_length.
+Print Assumptions C15_cache_length.
+Print Assumptions C15_witness.
